@@ -69,6 +69,27 @@ func runSolverCtx(parent context.Context, sv solverSpec, file string, secs int) 
 // discharge solves every obligation; sequential portfolio per obligation, obligations in parallel.
 func discharge(obls []*Obligation, workDir string, tier string, jobs int) {
 	os.MkdirAll(workDir, 0o755)
+	// identical queries (same text after the header comments) are solved once
+	groups := map[string][]*Obligation{}
+	var leaders []*Obligation
+	for _, o := range obls {
+		if o.Script == "" {
+			continue
+		}
+		key := scriptKey(o)
+		if len(groups[key]) == 0 {
+			leaders = append(leaders, o)
+		}
+		groups[key] = append(groups[key], o)
+	}
+	defer func() {
+		for _, g := range groups {
+			for _, o := range g[1:] {
+				o.Status, o.Solver, o.Output, o.Model = g[0].Status, g[0].Solver+" (shared)", g[0].Output, g[0].Model
+			}
+		}
+	}()
+	obls = leaders
 	budget := []int{15, 15, 15}
 	if tier == "thorough" {
 		budget = []int{90, 90, 90}
@@ -203,4 +224,22 @@ func firstLines(s string, n int) string {
 		ls = ls[:n]
 	}
 	return strings.Join(ls, " / ")
+}
+
+func scriptKey(o *Obligation) string {
+	s := o.Script
+	// drop the two header comment lines (obligation name and path)
+	for i := 0; i < 2; i++ {
+		if j := strings.IndexByte(s, '\n'); j >= 0 && strings.HasPrefix(s, ";") {
+			s = s[j+1:]
+		}
+	}
+	kind := "p"
+	if o.Cover {
+		kind = "c"
+	}
+	if o.Must {
+		kind = "m"
+	}
+	return kind + s
 }
